@@ -404,6 +404,7 @@ pub fn profile_for(prop: &str, tier: &str) -> Profile {
             p.matrix_often = true;
         }
         "C04" => {
+            p.w_roundtrip = 3;
             p.w_edit = 1;
             p.w_rekey = 6;
             p.w_refresh = 6;
@@ -413,6 +414,7 @@ pub fn profile_for(prop: &str, tier: &str) -> Profile {
             p.malformed_pct = 5;
         }
         "C05" => {
+            p.w_roundtrip = 3;
             p.w_edit = 3;
             p.w_edits = [1, 2, 2, 5, 1, 1];
             p.w_rekey = 5;
@@ -447,12 +449,15 @@ pub fn profile_for(prop: &str, tier: &str) -> Profile {
         "C13" => {
             p.w_roundtrip = 8;
             p.w_ser = 6;
+            p.w_hdr = 4;
+            p.w_pke = 1;
             p.max_dims = 2;
             p.max_attrs = 3;
             p.hybrid_pct = 20;
             p.matrix_often = true;
         }
         "C17" => {
+            p.tracers_pct = 25;
             p.w_trace = 6;
             p.w_keygen = 6;
             p.w_refresh = 6;
@@ -631,11 +636,34 @@ pub fn plan_c12(tier: &str, seed: u64) -> Plan {
             cases.push(c);
         }
     }
+    // --- sizes: every metadata length up to 300 and the lengths around the width changes of the LEB128 length prefix of
+    // the encrypted metadata (127 / 128, 16383 / 16384 bytes on the wire), 64 KiB, and beyond: generate, store / load, open
+    let mut sizes: Vec<usize> = (41..=300).collect();
+    for l in [127usize, 128, 16382, 16383, 16384, 65535, 65536, 70000] {
+        sizes.push(l - 28);
+    }
+    if thorough {
+        sizes.extend([2097151 - 28, 2097152 - 28, 3_000_000]);
+    }
+    for chunk in sizes.chunks(20) {
+        let mut c = Case::new(format!("c12-hdr-sizes-{}", chunk[0]), c12_prelude());
+        for (k, l) in chunk.iter().enumerate() {
+            let md = Some(data(&mut rng, *l));
+            let ad = ads[(l + k) % ads.len()].clone();
+            c.lines.push(format!("hdr_gen K1 H0 t:{} {} {}", h("D::A"), ob(&md), ob(&ad)));
+            c.expect.push((c.lines.len() - 1, ex(&format!("ok meta={}", l + 28), "hdr-generate", &[])));
+            c.lines.push("hdr_tamper H0 H2 roundtrip 0".into());
+            c.lines.push(format!("hdr_dec U0 H2 {}", ob(&ad)));
+            c.expect.push((c.lines.len() - 1, ex(&format!("ok some sec=1 meta={}", ob(&md)), "hdr-roundtrip", &[])));
+            c.lines.push("ser H0".into());
+        }
+        cases.push(c);
+    }
     Plan {
         per_line: true,
         cases,
         exhaustive: false,
-        rule: format!("PKE: plaintext lengths 0..70{} and around 4 KiB / 8 KiB, authorised and unauthorised keys, truncation at every length (short plaintexts) or sampled lengths incl. the nonce boundary, bit flips, ciphertext spliced under another encapsulation; header: metadata absent / empty / 1..40 bytes x authentication data absent / empty / short / 33 bytes, decrypted with every authentication-data variant plus a different one, truncation of the metadata ciphertext at every length, bit flips, serialisation round trip. Every check line is compared with the Lean model AND with what the specification demands; distinct = distinct canonical traces", if thorough { "..300" } else { "" }),
+        rule: format!("PKE: plaintext lengths 0..70{} and around 4 KiB / 8 KiB, authorised and unauthorised keys, truncation at every length (short plaintexts) or sampled lengths incl. the nonce boundary, bit flips, ciphertext spliced under another encapsulation; header: metadata absent / empty / 1..40 bytes x authentication data absent / empty / short / 33 bytes, decrypted with every authentication-data variant plus a different one, truncation of the metadata ciphertext at every length, bit flips, serialisation round trip; every metadata length 41..300 and the lengths that put the encrypted metadata at 127 / 128 / 16382..16384 / 65535 / 65536 / 70000 bytes (2 MiB and 3 MB in thorough): generated, stored / loaded, opened, and given to the wire model. Every check line is compared with the Lean model AND with what the specification demands; distinct = distinct canonical traces", if thorough { "..300" } else { "" }),
     }
 }
 
@@ -793,6 +821,15 @@ pub fn plan_c08(tier: &str, seed: u64) -> Plan {
             lines.push(format!("refresh M0 U{src} U{next_u} 1"));
             next_u += 1;
         }
+        // half of the cases: the access structure has been edited and the master key not updated yet when the forged
+        // keys are presented (a rejected refresh must leave that master key alone as well)
+        if rng.below(2) == 0 {
+            match rng.below(3) {
+                0 => lines.push(format!("add_attr M0 {} {} c -", h("D"), h("Z"))),
+                1 => lines.push(format!("del_attr M0 {} {}", h("D"), h("B"))),
+                _ => { lines.push(format!("add_dim M0 a {}", h("N"))); lines.push(format!("add_attr M0 {} {} h -", h("N"), h("X"))); }
+            }
+        }
         let mut c = Case::new(format!("c08-{ci}"), lines);
         for u in 0..next_u {
             c.lines.push(format!("c08 U{u} none"));
@@ -826,6 +863,6 @@ pub fn plan_c08(tier: &str, seed: u64) -> Plan {
         per_line: true,
         cases,
         exhaustive: false,
-        rule: format!("{n_cases} random small histories (keys for 5 policies incl. '*', 0..3 rekeys each followed by a refresh with keep: single and multiple rights, 1..4 revisions, classic and hybridised secrets); on every key version 44 tampering operators on the serialised form (reorder / drop / duplicate / rename rights, move / swap / drop secrets, shift bytes between a right's name and its secret, merge a chain into a name, merge the broadcast chain into its neighbour, move the last marker of the identifier into the first right's name or the first secret of the empty-named right into the identifier, flavour change with re-chunking, strip / flip / splice signature, flip / swap / splice id, splice a chain of another issued key, key of another authority, key issued by a replica of this master key) plus the untouched control; the real refresh_usk (both flags, on copies) is compared with the Lean byte-level MAC model and with the specification (only the issued key is accepted; nothing modified on rejection)"),
+        rule: format!("{n_cases} random small histories (keys for 5 policies incl. '*', 0..3 rekeys each followed by a refresh with keep: single and multiple rights, 1..4 revisions, classic and hybridised secrets); on every key version 44 tampering operators on the serialised form (reorder / drop / duplicate / rename rights, move / swap / drop secrets, shift bytes between a right's name and its secret, merge a chain into a name, merge the broadcast chain into its neighbour, move the last marker of the identifier into the first right's name or the first secret of the empty-named right into the identifier, flavour change with re-chunking, strip / flip / splice signature, flip / swap / splice id, splice a chain of another issued key, key of another authority, key issued by a replica of this master key) plus the untouched control; in half of the histories the access structure was edited and the master key not yet updated when the keys are presented; the real refresh_usk (both flags, on copies) is compared with the Lean byte-level MAC model and with the specification (only the issued key is accepted; nothing modified on rejection)"),
     }
 }
